@@ -16,3 +16,166 @@ package wire
 //@   ensures [C09] sig.Results().Len() == 3 && tid(sig.Results().At(1).Type()) == tid(cleanupType) && tid(sig.Results().At(2).Type()) == tid(errorType) ==> result.1 == nil && result.0.out == sig.Results().At(0).Type() && result.0.cleanup && result.0.err
 //@   ensures [C09] sig.Results().Len() == 3 && !(tid(sig.Results().At(1).Type()) == tid(cleanupType) && tid(sig.Results().At(2).Type()) == tid(errorType)) ==> result.1 != nil
 //@   ensures [C09] sig.Results().Len() >= 4 ==> result.1 != nil
+
+// ---------------------------------------------------------------------------
+// Shared vocabulary
+// ---------------------------------------------------------------------------
+
+// A providerSetSrc has a source, and an injector-argument source is in range.
+//@ define wfSrc(s *providerSetSrc) = allocated(s) && (s.InjectorArg != nil ==> allocated(s.InjectorArg)) && (s.Provider != nil || s.Binding != nil || s.Value != nil || s.Import != nil || s.InjectorArg != nil || s.Field != nil) && (s.InjectorArg != nil ==> s.InjectorArg.Args != nil && s.InjectorArg.Args.Tuple != nil && 0 <= s.InjectorArg.Index && s.InjectorArg.Index < s.InjectorArg.Args.Tuple.Len())
+// A ProvidedType stored in a provider map names its type and has a source.
+//@ define wfPT(pt *ProvidedType) = allocated(pt) && (pt.a != nil ==> allocated(pt.a)) && pt.t != nil && (pt.p != nil || pt.v != nil || pt.a != nil || pt.f != nil) && (pt.a != nil ==> pt.a.Args != nil && pt.a.Args.Tuple != nil && 0 <= pt.a.Index && pt.a.Index < pt.a.Args.Tuple.Len())
+// Contents of the two maps of a provider set (published-immutable invariants: established where
+// the maps are stored into the set, assumed wherever they are loaded from it).
+//@ define wfSrcMap(m *typeutil.Map) = forall k int :: TMD[m][k] ==> (TMV[m][k] is *providerSetSrc) && wfSrc(TMV[m][k].(*providerSetSrc))
+//@ define wfProvMap(m *typeutil.Map) = forall k int :: TMD[m][k] ==> (TMV[m][k] is *ProvidedType) && wfPT(TMV[m][k].(*ProvidedType))
+//@ fieldinv ProviderSet.srcMap v != nil ==> wfSrcMap(v)
+//@ fieldinv ProviderSet.providerMap v != nil ==> wfProvMap(v)
+
+//@ fieldinv gen.pkg v != nil
+//@ fieldinv gen.imports v != nil
+//@ fieldinv gen.anonImports v != nil
+//@ fieldinv gen.values v != nil
+//@ fieldinv injectorGen.g v != nil
+//@ fieldinv objectCache.fset v != nil
+//@ fieldinv objectCache.packages v != nil
+//@ fieldinv objectCache.objects v != nil
+//@ fieldinv wireErr.error v != nil
+//@ fieldinv InjectorArg.Args v != nil
+
+// ---------------------------------------------------------------------------
+// errors.go
+// ---------------------------------------------------------------------------
+
+//@ func notePosition
+//@   modifies nothing
+//@   ensures e == nil ==> result == nil
+//@   ensures e != nil ==> result != nil
+//@   ensures (e is *wireErr) ==> result == e
+//@   ensures e != nil && !(e is *wireErr) ==> (result is *wireErr) && fresh(result.(*wireErr))
+
+//@ func (*errorCollector).add
+//@   modifies ec.errors
+//@   ensures len(ec.errors) >= len(old(ec.errors))
+//@   ensures (exists i :: 0 <= i && i < len(errs) && errs[i] != nil) ==> len(ec.errors) > len(old(ec.errors))
+//@   ensures len(errs) == 1 && errs[0] != nil ==> len(ec.errors) > len(old(ec.errors))
+//@   ensures (forall i :: 0 <= i && i < len(errs) ==> errs[i] == nil) ==> ec.errors == old(ec.errors)
+//@   loop 1 invariant len(ec.errors) >= len(old(ec.errors))
+//@   loop 1 invariant (exists i :: 0 <= i && i < done && errs[i] != nil) ==> len(ec.errors) > len(old(ec.errors))
+//@   loop 1 invariant (forall i :: 0 <= i && i < done ==> errs[i] == nil) ==> ec.errors == old(ec.errors)
+
+// ---------------------------------------------------------------------------
+// parse.go: ProvidedType accessors
+// ---------------------------------------------------------------------------
+
+//@ func (ProvidedType).IsNil
+//@   pure
+//@   ensures result == (pt.p == nil && pt.v == nil && pt.a == nil && pt.f == nil)
+//@ func (ProvidedType).Type
+//@   pure
+//@   ensures result == pt.t
+//@ func (ProvidedType).IsProvider
+//@   pure
+//@   ensures result == (pt.p != nil)
+//@ func (ProvidedType).IsValue
+//@   pure
+//@   ensures result == (pt.v != nil)
+//@ func (ProvidedType).IsArg
+//@   pure
+//@   ensures result == (pt.a != nil)
+//@ func (ProvidedType).IsField
+//@   pure
+//@   ensures result == (pt.f != nil)
+//@ func (ProvidedType).Provider
+//@   pure
+//@   requires pt.p != nil
+//@   ensures result == pt.p
+//@ func (ProvidedType).Value
+//@   pure
+//@   requires pt.v != nil
+//@   ensures result == pt.v
+//@ func (ProvidedType).Arg
+//@   pure
+//@   requires pt.a != nil
+//@   ensures result == pt.a
+//@ func (ProvidedType).Field
+//@   pure
+//@   requires pt.f != nil
+//@   ensures result == pt.f
+
+//@ func (*ProviderSet).For
+//@   modifies nothing
+//@   ensures set.providerMap == nil || !TMD[set.providerMap][tid(t)] ==> result.p == nil && result.v == nil && result.a == nil && result.f == nil
+//@   ensures set.providerMap != nil && TMD[set.providerMap][tid(t)] ==> result.t == TMV[set.providerMap][tid(t)].(*ProvidedType).t && result.p == TMV[set.providerMap][tid(t)].(*ProvidedType).p && result.v == TMV[set.providerMap][tid(t)].(*ProvidedType).v && result.a == TMV[set.providerMap][tid(t)].(*ProvidedType).a && result.f == TMV[set.providerMap][tid(t)].(*ProvidedType).f
+//@   ensures set.providerMap != nil && TMD[set.providerMap][tid(t)] ==> result.t != nil && (result.p != nil || result.v != nil || result.a != nil || result.f != nil)
+
+//@ fieldinv Provider.Out forall i :: 0 <= i && i < len(v) ==> v[i] != nil
+//@ fieldinv Value.Out v != nil
+//@ fieldinv Field.Out forall i :: 0 <= i && i < len(v) ==> v[i] != nil
+//@ fieldinv Field.Parent v != nil
+//@ fieldinv IfaceBinding.Iface v != nil
+//@ fieldinv IfaceBinding.Provided v != nil
+//@ fieldinv InjectorArgs.Tuple v != nil
+
+// ---------------------------------------------------------------------------
+// analyze.go: buildProviderMap  (C05, and the map invariants everything else relies on)
+// ---------------------------------------------------------------------------
+
+//@ define S(m *typeutil.Map, t types.Type) = TMV[m][tid(t)].(*providerSetSrc)
+//@ define isArgSrc(s *providerSetSrc, j int) = s.InjectorArg != nil && s.InjectorArg.Index == j && s.Provider == nil && s.Binding == nil && s.Value == nil && s.Import == nil && s.Field == nil
+//@ define isProvSrc(s *providerSetSrc, p *Provider) = s.Provider == p && s.Binding == nil && s.Value == nil && s.Import == nil && s.InjectorArg == nil && s.Field == nil
+//@ define isValSrc(s *providerSetSrc, v *Value) = s.Value == v && s.Provider == nil && s.Binding == nil && s.Import == nil && s.InjectorArg == nil && s.Field == nil
+//@ define isFieldSrc(s *providerSetSrc, f *Field) = s.Field == f && s.Provider == nil && s.Binding == nil && s.Value == nil && s.Import == nil && s.InjectorArg == nil
+//@ define isBindSrc(s *providerSetSrc, b *IfaceBinding) = s.Binding == b && s.Provider == nil && s.Value == nil && s.Import == nil && s.InjectorArg == nil && s.Field == nil
+//@ define isImpSrc(s *providerSetSrc, i *ProviderSet) = s.Import == i && s.Provider == nil && s.Binding == nil && s.Value == nil && s.InjectorArg == nil && s.Field == nil
+//@ define ownsImps(m *typeutil.Map, is []*ProviderSet, n int) = forall j, q :: 0 <= j && j < n && TMD[is[j].providerMap][q] ==> TMD[m][q] && isImpSrc(TMV[m][q].(*providerSetSrc), is[j])
+//@ define ownsArgs(m *typeutil.Map, tup *types.Tuple, n int) = forall j :: 0 <= j && j < n ==> TMD[m][tid(tup.At(j).Type())] && isArgSrc(S(m, tup.At(j).Type()), j)
+//@ define ownsOuts(m *typeutil.Map, p *Provider, n int) = forall o :: 0 <= o && o < n ==> TMD[m][tid(p.Out[o])] && isProvSrc(S(m, p.Out[o]), p)
+//@ define ownsProvs(m *typeutil.Map, ps []*Provider, n int) = forall j, o :: 0 <= j && j < n && 0 <= o && o < len(ps[j].Out) ==> TMD[m][tid(ps[j].Out[o])] && isProvSrc(S(m, ps[j].Out[o]), ps[j])
+//@ define ownsVals(m *typeutil.Map, vs []*Value, n int) = forall j :: 0 <= j && j < n ==> TMD[m][tid(vs[j].Out)] && isValSrc(S(m, vs[j].Out), vs[j])
+//@ define ownsFOuts(m *typeutil.Map, f *Field, n int) = forall o :: 0 <= o && o < n ==> TMD[m][tid(f.Out[o])] && isFieldSrc(S(m, f.Out[o]), f)
+//@ define ownsFields(m *typeutil.Map, fs []*Field, n int) = forall j, o :: 0 <= j && j < n && 0 <= o && o < len(fs[j].Out) ==> TMD[m][tid(fs[j].Out[o])] && isFieldSrc(S(m, fs[j].Out[o]), fs[j])
+//@ define ownsBinds(m *typeutil.Map, bs []*IfaceBinding, n int) = forall j :: 0 <= j && j < n ==> TMD[m][tid(bs[j].Iface)] && isBindSrc(S(m, bs[j].Iface), bs[j])
+//@ define ownsAllArgs(m *typeutil.Map, set *ProviderSet) = set.InjectorArgs != nil ==> ownsArgs(m, set.InjectorArgs.Tuple, set.InjectorArgs.Tuple.Len())
+//@ define mapsOK(pm *typeutil.Map, sm *typeutil.Map) = pm != nil && sm != nil && pm != sm && wfProvMap(pm) && wfSrcMap(sm) && (forall k int :: TMD[pm][k] == TMD[sm][k])
+
+//@ func bindingConflictError
+//@   modifies OUTLEN, OUTEV
+//@   requires wfSrc(cur) && wfSrc(prev) && typ != nil
+//@   ensures result != nil
+
+//@ func buildProviderMap$1
+//@   requires mapsOK(providerMap, srcMap) && ec != nil && fset != nil && set != nil && wfSrc(src) && isImpSrc(src, src.Import)
+//@   requires src.Import != nil && src.Import.providerMap != nil && src.Import.providerMap != providerMap && src.Import.providerMap != srcMap && wfProvMap(src.Import.providerMap)
+//@   requires k != nil && TMD[src.Import.providerMap][tid(k)] && v == TMV[src.Import.providerMap][tid(k)]
+//@   frame len(ec.errors) >= old(len(ec.errors))
+//@   frame forall q int :: old(TMD[srcMap][q]) ==> TMD[srcMap][q] && TMV[srcMap][q] == old(TMV[srcMap][q])
+//@   frame forall q int :: old(TMD[providerMap][q]) ==> TMD[providerMap][q] && TMV[providerMap][q] == old(TMV[providerMap][q])
+//@   frame forall m int, q int :: m != srcMap && m != providerMap ==> TMD[m][q] == old(TMD[m][q]) && TMV[m][q] == old(TMV[m][q])
+//@   each [C05] q :: len(ec.errors) == 0 ==> TMD[srcMap][q] && isImpSrc(TMV[srcMap][q].(*providerSetSrc), src.Import)
+//@   props C05
+
+//@ func buildProviderMap
+//@   requires forall i :: 0 <= i && i < len(set.Imports) ==> set.Imports[i].providerMap != nil && set.Imports[i].srcMap != nil
+//@   ensures [C05] len(result.2) > 0 ==> result.0 == nil && result.1 == nil
+//@   ensures [C05] len(result.2) == 0 ==> mapsOK(result.0, result.1)
+//@   ensures [C05] len(result.2) == 0 ==> ownsAllArgs(result.1, set) && ownsImps(result.1, set.Imports, len(set.Imports)) && ownsProvs(result.1, set.Providers, len(set.Providers)) && ownsVals(result.1, set.Values, len(set.Values)) && ownsFields(result.1, set.Fields, len(set.Fields)) && ownsBinds(result.1, set.Bindings, len(set.Bindings))
+//@   ensures [C05] len(result.2) == 0 ==> forall i, j :: 0 <= i && i < len(set.Values) && 0 <= j && j < len(set.Values) && tid(set.Values[i].Out) == tid(set.Values[j].Out) ==> set.Values[i] == set.Values[j]
+//@   ensures [C05] len(result.2) == 0 ==> forall i, o, j :: 0 <= i && i < len(set.Providers) && 0 <= o && o < len(set.Providers[i].Out) && 0 <= j && j < len(set.Values) ==> tid(set.Providers[i].Out[o]) != tid(set.Values[j].Out)
+//@   ensures [C05] len(result.2) == 0 ==> forall i, j :: 0 <= i && i < len(set.Bindings) && 0 <= j && j < len(set.Values) ==> tid(set.Bindings[i].Iface) != tid(set.Values[j].Out)
+//@   loop 1 invariant mapsOK(providerMap, srcMap) && ec != nil
+//@   loop 1 invariant [C05] len(ec.errors) == 0 ==> ownsArgs(srcMap, givens, i)
+//@   loop 2 invariant mapsOK(providerMap, srcMap) && ec != nil
+//@   loop 2 invariant [C05] len(ec.errors) == 0 ==> ownsAllArgs(srcMap, set) && ownsImps(srcMap, set.Imports, done)
+//@   loop 3 invariant mapsOK(providerMap, srcMap) && ec != nil
+//@   loop 3 invariant [C05] len(ec.errors) == 0 ==> ownsAllArgs(srcMap, set) && ownsImps(srcMap, set.Imports, len(set.Imports)) && ownsProvs(srcMap, set.Providers, done)
+//@   loop 4 invariant mapsOK(providerMap, srcMap) && ec != nil && wfSrc(src) && isProvSrc(src, p)
+//@   loop 4 invariant [C05] len(ec.errors) == 0 ==> ownsAllArgs(srcMap, set) && ownsImps(srcMap, set.Imports, len(set.Imports)) && ownsProvs(srcMap, set.Providers, done3) && ownsOuts(srcMap, p, done)
+//@   loop 5 invariant mapsOK(providerMap, srcMap) && ec != nil
+//@   loop 5 invariant [C05] len(ec.errors) == 0 ==> ownsAllArgs(srcMap, set) && ownsImps(srcMap, set.Imports, len(set.Imports)) && ownsProvs(srcMap, set.Providers, len(set.Providers)) && ownsVals(srcMap, set.Values, done)
+//@   loop 6 invariant mapsOK(providerMap, srcMap) && ec != nil
+//@   loop 6 invariant [C05] len(ec.errors) == 0 ==> ownsAllArgs(srcMap, set) && ownsImps(srcMap, set.Imports, len(set.Imports)) && ownsProvs(srcMap, set.Providers, len(set.Providers)) && ownsVals(srcMap, set.Values, len(set.Values)) && ownsFields(srcMap, set.Fields, done)
+//@   loop 7 invariant mapsOK(providerMap, srcMap) && ec != nil && wfSrc(src) && isFieldSrc(src, f)
+//@   loop 7 invariant [C05] len(ec.errors) == 0 ==> ownsAllArgs(srcMap, set) && ownsImps(srcMap, set.Imports, len(set.Imports)) && ownsProvs(srcMap, set.Providers, len(set.Providers)) && ownsVals(srcMap, set.Values, len(set.Values)) && ownsFields(srcMap, set.Fields, done6) && ownsFOuts(srcMap, f, done)
+//@   loop 8 invariant mapsOK(providerMap, srcMap) && ec != nil
+//@   loop 8 invariant [C05] len(ec.errors) == 0 ==> ownsAllArgs(srcMap, set) && ownsImps(srcMap, set.Imports, len(set.Imports)) && ownsProvs(srcMap, set.Providers, len(set.Providers)) && ownsVals(srcMap, set.Values, len(set.Values)) && ownsFields(srcMap, set.Fields, len(set.Fields)) && ownsBinds(srcMap, set.Bindings, done)
